@@ -623,6 +623,9 @@ struct Sharded
     int case_timeout_s = 5;
     double deadline_s = 0;  // relative budget
     int max_restarts = 8;   // per worker; beyond that the shard is abandoned (exhaustive: false)
+    int fatal_exit_code = -1; // a worker that exits with this status has met a condition under which the exploration cannot go
+                              // on at all (engine C: a thread waits on something the scheduler does not model); it is reported
+                              // once per worker and no shard is restarted
     int rerun_factor = 4;   // a timed-out case is re-run alone with this multiple of the limit
     int max_confirmed_hangs = 6; // after that many confirmed hangs further time-outs are taken at face value
     std::string tmpdir = ".";
@@ -669,6 +672,7 @@ struct Sharded
             bool finished = false;
         };
         std::vector<W> ws(nworkers);
+        bool aborted = false;
         int live = 0;
         const pid_t self = getpid();
         auto fname = [&](int w, const char* ext) {
@@ -799,6 +803,11 @@ struct Sharded
                 }
                 unlink(fname(w, ".single").c_str());
             }
+            else if (fatal_exit_code >= 0 && WIFEXITED(st) && WEXITSTATUS(st) == fatal_exit_code)
+            {
+                aborted = true;
+                total.violation("exploration-impossible", prop + ":exploration-impossible:" + d.classes, d.witness, how + " | " + err, bad);
+            }
             else
             {
                 std::string clause = "crash";
@@ -814,7 +823,7 @@ struct Sharded
             // The dead worker's accumulated results are lost with it.  Cases are deterministic, so
             // the lost part [old resume, bad) of this shard is re-executed by a helper process and
             // the shard is then restarted behind the bad case.
-            if (ws[w].restarts++ < max_restarts)
+            if (!aborted && ws[w].restarts++ < max_restarts)
             {
                 long old = ws[w].resume;
                 fflush(stdout);
